@@ -8,6 +8,12 @@ func init() {
 				p.Jobs = append(p.Jobs, Job{Harness: "gonnx.H_C18_glue", Case: map[string]interface{}{"entry": e, "content": c, "file": ""}})
 			}
 		}
+		// one byte of a small well-formed message replaced by each of these values, at every position
+		for _, b := range []int{0x00, 0x01, 0x09, 0x0d, 0x11, 0x12, 0x15, 0x40, 0x7f, 0x80, 0xff} {
+			for pos := 0; pos < 24; pos++ {
+				p.Jobs = append(p.Jobs, Job{Harness: "gonnx.H_C18_glue", Case: map[string]interface{}{"entry": "bytes", "content": "mutated", "file": "", "byte": b, "pos": pos}})
+			}
+		}
 		for _, f := range []string{"mlp.onnx", "gru.onnx", "scaler.onnx", "does-not-exist.onnx", "mnist-8-opset13.onnx"} {
 			p.Jobs = append(p.Jobs, Job{Harness: "gonnx.H_C18_glue", Case: map[string]interface{}{"entry": "file", "content": "", "file": f}})
 		}
@@ -49,6 +55,13 @@ func init() {
 					continue
 				}
 				p.Jobs = append(p.Jobs, Job{Harness: "gonnx.H_C18_newmodel", Case: map[string]interface{}{"nopset": 1, "graph": true, "ninit": 2, "n0": 1, "n1": n1, "raw": true, "rawdt": rawdt, "ninfo": 0}})
+			}
+		}
+		// an initializer that carries BOTH encodings (typed float_data and raw_data), their sizes agreeing or not
+		// with each other and with the dimensions
+		for _, n1 := range []int{1, 2, 3} {
+			for _, rawLen := range []int{4, 8, 12, 5} {
+				p.Jobs = append(p.Jobs, Job{Harness: "gonnx.H_C18_newmodel", Case: map[string]interface{}{"nopset": 1, "graph": true, "ninit": 2, "n0": 1, "n1": n1, "raw": false, "rawdt": 1, "ninfo": 0, "bothraw": rawLen}})
 			}
 		}
 		for pos := 0; pos <= 2; pos++ {
